@@ -278,4 +278,160 @@ theorem varop_template_correct (T : TupleLaws P) (n u : Int) (op : Op) (hn : -32
   | [x] => exact ⟨9, varop_unary P T n u op hu hop x w⟩
   | x :: y :: rest => exact ⟨_, varop_multi P T n u op hop (x :: y :: rest) x (y :: rest) rfl (by simp) w⟩
 
+/-! ### comparator template -/
+
+/-- loop invariant of `comparator_asm`: at pc 5 with `last` in slot 3, counter `k` in slot 5 and `args.drop k = nxt :: rest` -/
+theorem comparator_loop (T : TupleLaws P) (invert : Bool) (op : Op) (hop : IsBinOp P op) (args : List P.V) :
+    ∀ (rest : List P.V) (nxt : P.V) (k : Nat) (last s2 s4 : P.V) (w : P.W), args.drop k = nxt :: rest →
+      exec P (comparatorCode invert op) (7 * (rest.length + 1) + 2) ⟨[T.tup args, P.num args.length, s2, last, s4, P.num k], 5⟩ w =
+        some (goGeneric P invert op last nxt rest w) := by
+  unfold IsBinOp at hop
+  have hin := isBinOp_in P
+  have heq := isBinOp_equals P
+  unfold IsBinOp at hin heq
+  intro rest
+  induction rest with
+  | nil =>
+    intro nxt k last s2 s4 w hdrop
+    have hk : k < args.length := by
+      apply Nat.lt_of_not_le
+      intro hge
+      rw [List.drop_eq_nil_of_le hge] at hdrop
+      cases hdrop
+    have hx : args[k] = nxt := by
+      have := List.drop_eq_getElem_cons hk
+      rw [this] at hdrop
+      exact (List.cons.inj hdrop).1
+    have hrest : args.drop (k + 1) = [] := by
+      have := List.drop_eq_getElem_cons hk
+      rw [this] at hdrop
+      exact (List.cons.inj hdrop).2
+    have hlen : ((k : Int) + 1 == (args.length : Int)) = true := by
+      have := congrArg List.length hrest
+      simp at this
+      simp
+      omega
+    have hfuel : 7 * (([] : List P.V).length + 1) + 2 = 0 + 1 + 1 + 1 + 1 + 1 + 1 + 1 + 1 + 1 := by simp
+    rw [hfuel]
+    simp only [exec, comparatorCode, List.getElem?_cons_succ, List.getElem?_cons_zero, hin, hop, getSlot, setSlot, next, mkABC_A, mkABC_B,
+      mkABC_C, List.getD_cons_succ, List.getD_cons_zero, List.set_cons_succ, List.set_cons_zero,
+      binop_in_tup P T args k hk, hx, M.bind, M.pure, Nat.reduceLT, Nat.reduceAdd, goGeneric]
+    rcases hb : binop P op last nxt w with ⟨(e | j), w'⟩
+    · rfl
+    · cases invert <;> by_cases ht : P.truthy j = true <;>
+        simp [exec, stepc_addim, stepc_jumpIfNot, stepc_return, stepc_moveNear, stepc_loadTrue, stepc_loadFalse, heq, getSlot, setSlot, next,
+          jumpBy, mkABI_A, mkABI_B, mkABI_CS, mkAE_A, mkAE_E, mkABC_A, mkABC_B, mkABC_C, mkAI_A, mkAI_ES, mkD_D, immop_addim_num P T,
+          binop_equals_num P T, M.bind, M.pure, ofBool, P.truthy_tru, hlen, ht]
+  | cons c rest ih =>
+    intro nxt k last s2 s4 w hdrop
+    have hk : k < args.length := by
+      apply Nat.lt_of_not_le
+      intro hge
+      rw [List.drop_eq_nil_of_le hge] at hdrop
+      cases hdrop
+    have hx : args[k] = nxt := by
+      have := List.drop_eq_getElem_cons hk
+      rw [this] at hdrop
+      exact (List.cons.inj hdrop).1
+    have hrest : args.drop (k + 1) = c :: rest := by
+      have := List.drop_eq_getElem_cons hk
+      rw [this] at hdrop
+      exact (List.cons.inj hdrop).2
+    have hne : ((k : Int) + 1 == (args.length : Int)) = false := by
+      rw [beq_eq_false_iff_ne]
+      intro h
+      have h2 : k + 1 = args.length := by omega
+      rw [h2, List.drop_length] at hrest
+      cases hrest
+    have hadd : ((k : Int) + 1) = ((k + 1 : Nat) : Int) := by omega
+    have hfuel : 7 * ((c :: rest).length + 1) + 2 = (7 * (rest.length + 1) + 2) + 1 + 1 + 1 + 1 + 1 + 1 + 1 := by
+      simp [List.length_cons]; omega
+    rw [hfuel]
+    simp only [exec, comparatorCode, List.getElem?_cons_succ, List.getElem?_cons_zero, hin, hop, getSlot, setSlot, next, mkABC_A, mkABC_B,
+      mkABC_C, List.getD_cons_succ, List.getD_cons_zero, List.set_cons_succ, List.set_cons_zero,
+      binop_in_tup P T args k hk, hx, M.bind, M.pure, Nat.reduceLT, Nat.reduceAdd, goGeneric]
+    rcases hb : binop P op last nxt w with ⟨(e | j), w'⟩
+    · rfl
+    · by_cases ht : P.truthy j = true
+      · have := ih c (k + 1) nxt P.fls nxt w' hrest
+        cases invert <;>
+          simp [exec, stepc_addim, stepc_jumpIfNot, stepc_moveNear, heq, getSlot, setSlot, next,
+            jumpBy, mkABI_A, mkABI_B, mkABI_CS, mkAE_A, mkAE_E, mkABC_A, mkABC_B, mkABC_C, mkAI_A, mkAI_ES, immop_addim_num P T,
+            binop_equals_num P T, M.bind, M.pure, ofBool, P.truthy_fls, hne, ht, ← hadd] at this ⊢ <;>
+          exact this
+      · cases invert <;>
+          simp [exec, stepc_jumpIfNot, stepc_return, stepc_loadTrue, stepc_loadFalse, getSlot, setSlot, next,
+            jumpBy, mkAI_A, mkAI_ES, mkD_D, M.bind, M.pure, ofBool, ht]
+
+theorem comparator_short (T : TupleLaws P) (invert : Bool) (op : Op) (args : List P.V) (h : args.length < 2) (w : P.W) :
+    exec P (comparatorCode invert op) 5 (frame0 P T args) w = some (M.pure (ofBool P (!invert)) w) := by
+  have hlt : decide (((args.length : Nat) : Int) < 2) = true := by simp; omega
+  cases invert <;>
+    simp [exec, comparatorCode, frame0, stepc_length, stepc_ltim, stepc_jumpIf, stepc_loadTrue, stepc_loadFalse, stepc_return,
+      getSlot, setSlot, next, jumpBy, mkAE_A, mkAE_E, mkABI_A, mkABI_B, mkABI_CS, mkAI_A, mkAI_ES, mkD_D, T.length_tup,
+      immop_ltim_num P T, M.bind, M.pure, hlt, ofBool, P.truthy_tru]
+
+theorem comparator_multi (T : TupleLaws P) (invert : Bool) (op : Op) (hop : IsBinOp P op) (args : List P.V) (x y : P.V) (rest : List P.V)
+    (h : args = x :: y :: rest) (w : P.W) :
+    exec P (comparatorCode invert op) (7 * (rest.length + 1) + 2 + 5) (frame0 P T args) w = some (goGeneric P invert op x y rest w) := by
+  have hdrop : args.drop 1 = y :: rest := by rw [h]; rfl
+  have hpos : 0 < args.length := by rw [h]; simp
+  have h0 : args[0] = x := by subst h; rfl
+  have hloop := comparator_loop P T invert op hop args rest y 1 x P.fls P.nil w hdrop
+  have hone : ((1 : Nat) : Int) = 1 := rfl
+  rw [hone] at hloop
+  have hlen : args.length = rest.length + 2 := by rw [h]; simp
+  have hlt : decide (((args.length : Nat) : Int) < 2) = false := by simp; omega
+  have hfuel : 7 * (rest.length + 1) + 2 + 5 = (7 * (rest.length + 1) + 2) + 1 + 1 + 1 + 1 + 1 := by omega
+  rw [hfuel]
+  simp [exec, comparatorCode, frame0, stepc_length, stepc_ltim, stepc_jumpIf, stepc_getIndex, stepc_loadInteger,
+    getSlot, setSlot, next, jumpBy, mkAE_A, mkAE_E, mkABI_A, mkABI_B, mkABI_CS, mkABC_A, mkABC_B, mkABC_C, mkAI_A, mkAI_ES, T.length_tup,
+    immop_ltim_num P T, M.bind, M.pure, hlt, ofBool, P.truthy_fls, T.getIndex_tup args 0 hpos, h0]
+  exact hloop
+
+/-- ★ running the bytecode of a variadic comparator template computes `evalComparator` for every argument list -/
+theorem comparator_template_correct (T : TupleLaws P) (invert : Bool) (op : Op) (hop : IsBinOp P op) (args : List P.V) (w : P.W) :
+    ∃ fuel, exec P (comparatorCode invert op) fuel (frame0 P T args) w = some (evalComparator P invert op args w) := by
+  match args with
+  | [] => exact ⟨5, comparator_short P T invert op [] (by simp) w⟩
+  | [x] => exact ⟨5, comparator_short P T invert op [x] (by simp) w⟩
+  | x :: y :: rest => exact ⟨_, comparator_multi P T invert op hop (x :: y :: rest) x y rest rfl w⟩
+
+/-! ### the regenerated words -/
+
+/-- checkable: the words of a variadic template decode to the modelled instruction list, its opcode is one the generic
+    three-register step executes, its constants fit `JOP_LOAD_INTEGER`, and the function object is a 6-slot vararg of arity 0 -/
+def templateWordsOk (t : CoreFun) : Bool :=
+  match t.kind with
+  | .varop n u op =>
+    decodesTo t.words (varopCode n u op) && templateOps.contains op && decide (-32768 ≤ n ∧ n < 32768) && decide (-32768 ≤ u ∧ u < 32768) &&
+      t.slots == 6 && t.vararg && t.arity == 0 && t.minArity == 0
+  | .comparator inv op =>
+    decodesTo t.words (comparatorCode inv op) && templateOps.contains op && t.slots == 6 && t.vararg && t.arity == 0 && t.minArity == 0
+  | _ => true
+
+/-- ★ for a template that passes the check, running its REAL bytecode words on the argument tuple computes `evalGeneric` -/
+theorem generic_bytecode_correct (T : TupleLaws P) (t : CoreFun) (h : templateWordsOk t = true) (vals : List P.V) (m : M P P.V)
+    (hm : evalGeneric P t vals = some m) (w : P.W) :
+    ∃ code fuel, t.words.map decode = code.map some ∧ exec P code fuel (frame0 P T vals) w = some (m w) := by
+  unfold templateWordsOk at h
+  unfold evalGeneric at hm
+  cases hk : t.kind with
+  | varop n u op =>
+    rw [hk] at h hm
+    simp only [Bool.and_eq_true, decide_eq_true_eq, decodesTo, beq_iff_eq, List.contains_iff_mem] at h
+    obtain ⟨⟨⟨⟨⟨⟨⟨hd, hmem⟩, hn⟩, hu⟩, _⟩, _⟩, _⟩, _⟩ := h
+    cases hm
+    obtain ⟨fuel, hf⟩ := varop_template_correct P T n u op hn hu (isBinOp_of_mem P op hmem) vals w
+    exact ⟨_, fuel, hd, hf⟩
+  | comparator inv op =>
+    rw [hk] at h hm
+    simp only [Bool.and_eq_true, decodesTo, beq_iff_eq, List.contains_iff_mem] at h
+    obtain ⟨⟨⟨⟨⟨hd, hmem⟩, _⟩, _⟩, _⟩, _⟩ := h
+    cases hm
+    obtain ⟨fuel, hf⟩ := comparator_template_correct P T inv op (isBinOp_of_mem P op hmem) vals w
+    exact ⟨_, fuel, hd, hf⟩
+  | asm => rw [hk] at hm; cases hm
+  | apply => rw [hk] at hm; cases hm
+
 end JanetModel.Spec
